@@ -26,13 +26,16 @@ Definition obs_eqb (m o : outcome * list event) : bool :=
   | _, _ => false
   end.
 
-(* the harness convention the model relies on: link j targets parameter "l<j>" (one digit), ids are distinct *)
+(* the harness convention the model relies on: link j targets parameter "l<j>" (one digit) or a whole argument, ids are distinct *)
 Definition param_name (j : nat) : str := [108%N; N.of_nat (48 + j)].
 Fixpoint nodup_nat (l : list nat) : bool :=
   match l with [] => true | x :: l' => negb (mem_nat x l') && nodup_nat l' end.
 Definition wf_links (ls : list link) : bool :=
   nodup_nat (map l_id ls)
-  && forallb (fun l => Nat.ltb (l_id l) 10 && str_eqb (last (split_key (l_target l)) []) (param_name (l_id l))) ls.
+  && forallb (fun l => Nat.ltb (l_id l) 10
+                       && (whole_target l        (* link(src, "n"): the target is the whole argument n; at most one link per such target *)
+                           || str_eqb (last (split_key (l_target l)) []) (param_name (l_id l)))) ls
+  && nodup_b (map l_target (filter whole_target ls)).
 
 (* v_class = Model.LinkOrder.link_class: the very function that guards the theorems of Properties/C16.v *)
 Definition judge1_with (fx : fixes) (c : case) : verdict :=
